@@ -55,13 +55,15 @@ theorem merge_ok {a b : Res D} (j : D → D → D) (h : (Res.merge j a b).ok = t
   simpa [Res.merge] using h
 
 theorem loopHead_ge (h : Sound sem dom Rel) (f : D → Res D) :
-    ∀ n d s, Rel d s → Rel (loopHead dom.join f n d) s := by
+    ∀ n d s, Rel d s → Rel (loopHead dom.join dom.le f n d) s := by
   intro n
   induction n with
   | zero => intro d s hd; exact hd
   | succ n ih =>
     intro d s hd
     simp only [loopHead]
+    split
+    · exact hd
     apply ih
     have h1 : Rel (match (f d).norm with | some x => dom.join d x | none => d) s := by
       cases (f d).norm with
@@ -150,7 +152,7 @@ theorem analyze_sound (h : Sound sem dom Rel) :
     simp only [analyze, Bool.and_eq_true] at hok
     obtain ⟨⟨⟨hokb, hle0⟩, hleN⟩, hleB⟩ := hok
     simp only [exec, analyze]
-    generalize hH : loopHead dom.join (analyze dom b) 8 d = H at *
+    generalize hH : loopHead dom.join dom.le (analyze dom b) 8 d = H at *
     have hH0 : Rel H s := h.le_sound _ _ _ hle0 hd
     -- inner induction on the iteration count
     have key : ∀ (n : Nat) (o : Oracle) (s : S), Rel H s →
@@ -270,22 +272,22 @@ theorem analyze_sound (h : Sound sem dom Rel) :
     | brk => exact covO_join_r h hb
     | exc => exact hb
 
-/-- Corollary used by the properties: if every abstract exit is `good`, and `good` abstract
-states only describe concrete states satisfying `P`, then `P` holds after EVERY execution,
+/-- Corollary used by the properties: if every abstract exit is `good` for its kind, and `good`
+abstract states only describe concrete states satisfying `P`, then `P` holds after EVERY execution,
 however it ends (normally, by an exception at any call, or by return). -/
-theorem exits_good_sound (h : Sound sem dom Rel) (good : D → Bool) (P : S → Prop)
-    (hgood : ∀ d s, good d = true → Rel d s → P s)
+theorem exits_good_sound (h : Sound sem dom Rel) (good : Outcome → D → Bool) (P : Outcome → S → Prop)
+    (hgood : ∀ out d s, good out d = true → Rel d s → P out s)
     (p : Prog A) (d : D) (s : S) (o : Oracle) (hd : Rel d s)
     (hex : exitsGood good (analyze dom p d) = true) :
-    P (exec sem p o s).2.1 := by
+    P (exec sem p o s).1 (exec sem p o s).2.1 := by
   simp only [exitsGood, Bool.and_eq_true] at hex
   obtain ⟨⟨⟨⟨hok, hn⟩, he⟩, hr⟩, hb⟩ := hex
   have hc := analyze_sound h p d s o hd hok
   cases hout : (exec sem p o s).1 <;> rw [hout] at hc <;> obtain ⟨d', h1, hrel⟩ := hc
-  · rw [h1] at hn; exact hgood _ _ (by simpa using hn) hrel
-  · rw [h1] at he; exact hgood _ _ (by simpa using he) hrel
-  · rw [h1] at hr; exact hgood _ _ (by simpa using hr) hrel
-  · rw [h1] at hb; exact hgood _ _ (by simpa using hb) hrel
+  · rw [h1] at hn; exact hgood _ _ _ (by simpa using hn) hrel
+  · rw [h1] at he; exact hgood _ _ _ (by simpa using he) hrel
+  · rw [h1] at hr; exact hgood _ _ _ (by simpa using hr) hrel
+  · rw [h1] at hb; exact hgood _ _ _ (by simpa using hb) hrel
 
 end
 end MlVerif.Flow
